@@ -3,6 +3,8 @@
 
 #include <atomic>
 
+#include "VerifHooks.h"
+
 namespace squids{
 namespace detail{
  
@@ -64,16 +66,19 @@ private:
       list.index=max_buffer_size;
     return(entries+orig.index);
 #else
+    SQUIDS_VERIF_POINT(1);
     list_head orig=list.load(), next;
     do{
       if(orig.index==max_buffer_size) //empty stack
         return(nullptr);
       next.counter=orig.counter+1;
+      SQUIDS_VERIF_POINT(2);
       auto next_ptr=entries[orig.index].next;
       if(next_ptr)
         next.index=next_ptr-entries;
       else
         next.index=max_buffer_size;
+      SQUIDS_VERIF_POINT(3);
     }while(!std::atomic_compare_exchange_weak(&list, &orig, next));
     return(entries+orig.index);
 #endif
@@ -90,6 +95,7 @@ private:
       node->next=entries+list.index;
     list.index=node-entries;
 #else
+    SQUIDS_VERIF_POINT(4);
     list_head orig=list.load(), next;
     uint32_t idx=node-entries;
     next.index=idx;
@@ -99,6 +105,7 @@ private:
         node->next=nullptr;
       else
         node->next=entries+orig.index;
+      SQUIDS_VERIF_POINT(5);
     }while(!std::atomic_compare_exchange_weak(&list, &orig, next));
 #endif
   }
@@ -132,6 +139,7 @@ public:
     if(!entry){ //no space left in cache
       return(false);
     }
+    SQUIDS_VERIF_POINT(6);
     entry->data=value;
     push(data_list,entry);
     return(true);
@@ -145,8 +153,28 @@ public:
     if(!entry) //no cached memory available
       return(T());
     push(free_list,entry);
+    SQUIDS_VERIF_POINT(7);
     return(*entry);
   }
+
+#ifdef SQUIDS_VERIF
+  ///Visit the cached objects, most recently inserted first, without removing
+  ///them. Only meaningful while no other thread uses the cache.
+  template<typename Visitor>
+  void verif_for_each(Visitor visit){
+#ifdef SQUIDS_THREAD_LOCAL
+    uint32_t index=data_list.index;
+#else
+    uint32_t index=data_list.load().index;
+#endif
+    unsigned int steps=0;
+    while(index!=max_buffer_size && steps++<max_buffer_size){
+      visit(entries[index].data);
+      record* next_ptr=entries[index].next;
+      index=next_ptr ? next_ptr-entries : max_buffer_size;
+    }
+  }
+#endif
 };
   
 }
